@@ -6,6 +6,7 @@ read-and-reset accumulators; `step_log` records every argument `step` was called
 Ghost accessors (`ghost()`, `accrued_snapshot`) never mutate anything.
 """
 import compat  # noqa: F401
+import numpy as np
 from gymnasium.spaces import Discrete, MultiDiscrete
 from abmarl.sim import PrincipleAgent, Agent, DynamicOrderSimulation
 
@@ -46,6 +47,9 @@ class StubSim(DynamicOrderSimulation):
         self.finish_at = script["finishAt"]
         self.noms = [list(x) for x in script["noms"]]
         self.undone_at = list(script.get("undoneAt", []))
+        # representation of the done flags: Python bools, or numpy.bool_ as np.all(...) returns them (the packaged
+        # corridor and maze simulations do); equal as values, different as objects (`flag is True` is False)
+        self.np_flags = bool(script.get("npFlags", False))
         # ids are deliberately NOT in lexicographic order (nor of equal length): code that sorts ids, iterates a
         # set of them or compares them as strings then differs visibly from code that keeps the listing order
         self.ids = [agent_id(i) for i in range(self.n)]
@@ -115,10 +119,12 @@ class StubSim(DynamicOrderSimulation):
         return self.done_at[a] <= self.t and not (u <= self.t)
 
     def get_done(self, agent_id, **kwargs):
-        return self._done(self.idx[agent_id])
+        d = self._done(self.idx[agent_id])
+        return np.bool_(d) if self.np_flags else d
 
     def get_all_done(self, **kwargs):
-        return self.finish_at <= self.t
+        d = self.finish_at <= self.t
+        return np.bool_(d) if self.np_flags else d
 
     def get_info(self, agent_id, **kwargs):
         return {"t": self.t}
